@@ -223,7 +223,12 @@ def w_post(case):
                      '__call__ (%s)' % lab, 'expected': gots[0], 'observed': s,
                      'behaviour': 's1_score'})
     eg = cstep.grad(lambda z: ref_total(case, z), x)
-    if grad.shape != eg.shape or not tol.allclose(grad, eg, 1e-7, 1e-8):
+    # (absolute tolerance relative to the largest entry, as in C12: kernel filters
+    # with nearly coinciding simulated values give entries of size 1e13 whose
+    # neighbours carry the rounding error of the cancelling terms)
+    scale = max(1.0, float(np.max(np.abs(eg[np.isfinite(eg)]), initial=0.0)))
+    if grad.shape != eg.shape or not tol.allclose(grad, eg, 1e-7,
+                                                  max(1e-8, 1e-9 * scale)):
         w = int(np.nanargmax(np.abs(grad - eg))) if grad.shape == eg.shape else -1
         viol.append({'sub': 'grad', 'message': 'sensitivities are not the '
                      'derivatives of the log-posterior (%s)' % lab,
